@@ -267,6 +267,13 @@ func (r *NodeManagement) processNotifyDetailedDiscoveryData(message *api.Message
 				}
 
 				entityAddress := ei.Description.EntityAddress.Entity
+
+				// the device information entity with the node management feature is
+				// needed to process any message of the device, it can not be removed
+				if slices.Equal(entityAddress, DeviceInformationAddressEntity) {
+					continue
+				}
+
 				removedEntity := remoteDevice.RemoveEntityByAddress(entityAddress)
 
 				// only continue if the entity existed
